@@ -9,7 +9,7 @@ def plan(tier, seed):
     for ki in range(nk):
         for bi in range(nb):
             for ci in range(nc):
-                if q and (ki + bi + ci + seed) % 9 and not (bi >= 17 and (ki + ci) % 3 == 0):
+                if q and (ki + bi + ci + seed) % 9 and not (bi >= 17 and (ki + ci + seed) % 5 == 0):
                     continue
                 units.append(dict(hfile='math.py', fname='c12_region', args=(ki, bi, ci)))
         for si in range(ns):
